@@ -77,9 +77,19 @@ func Harness_C08_CkptRestore() {
 
 	// the restored database accepts writes, flushes them and checkpoints again
 	m2 := c.snap.clone()
-	for step := 0; step < verif.Param("K2", 2); step++ {
-		verifStep(db2, m2)
-		verifCheckReads(db2, m2, "restored-then-written")
+	if verif.Param("SCRIPT", 0) == 1 {
+		// fixed continuation: two writes that seal the memtable (one new key, one overwrite)
+		for _, i := range []int{1, 0} {
+			v := verif.Bytes("v", 1)
+			db2.Put(verifKeys[i], v)
+			m2.val[i], m2.live[i] = v, true
+			verifCheckReads(db2, m2, "restored-then-written")
+		}
+	} else {
+		for step := 0; step < verif.Param("K2", 2); step++ {
+			verifStep(db2, m2)
+			verifCheckReads(db2, m2, "restored-then-written")
+		}
 	}
 	verif.Assert(db2.WaitOnTasks() == nil, "background-tasks-succeed")
 	verifCheckReads(db2, m2, "restored-written-settled")
